@@ -750,7 +750,7 @@ func init() {
 			// the change under test; without any they are a harness problem and must not pass silently
 			n := c.Counters["executions_whose_replayed_prefix_did_not_reproduce"] + c.Counters["first_execution_replays_that_diverged"]
 			if n > 0 && len(c.Violations) == 0 {
-				c.Error("NONDETERMINISM: %d executions did not reproduce their replayed prefix and no violation was found", n)
+				c.Unstable("%d executions did not reproduce their replayed prefix and no violation was found", n)
 			}
 		},
 		replay: func(c *Ctx, raw json.RawMessage) string {
